@@ -3,9 +3,10 @@
 id=$1; tag=$2; d=/verif/seeded/${id}${tag}; mkdir -p $d
 cp /tmp/mut/${id}${tag}.diff $d/patch.diff
 cp /tmp/mut/demo_$(echo $id | tr A-Z a-z)${tag}.py $d/demo.py
-python3 - "$id" "$3" "$4" "$5" > $d/meta.json <<'PY'
+base=$(git -C /tmp/wt_$(echo $id | tr A-Z a-z)${tag} rev-parse --short HEAD)
+python3 - "$id" "$3" "$4" "$5" "$base" > $d/meta.json <<'PY'
 import json,sys
-print(json.dumps(dict(breaks_property=sys.argv[1], needs_to_manifest=sys.argv[2], what_was_run=sys.argv[3], caught_by=sys.argv[4]),indent=1))
+print(json.dumps(dict(breaks_property=sys.argv[1], needs_to_manifest=sys.argv[2], what_was_run=sys.argv[3], caught_by=sys.argv[4], repo_commit_the_patch_applies_to=sys.argv[5]),indent=1))
 PY
 git -C /repo worktree remove --force /tmp/wt_$(echo $id | tr A-Z a-z)${tag}
 ls $d
